@@ -50,7 +50,13 @@ func NewWarmUpTrafficShapingCalculator(owner *TrafficShapingController, rule *Ru
 
 	maxToken := warningToken + uint64(2*float64(rule.WarmUpPeriodSec)*rule.Threshold/float64(1.0+rule.WarmUpColdFactor))
 
-	slope := float64(rule.WarmUpColdFactor-1.0) / rule.Threshold / float64(maxToken-warningToken)
+	// When the token arithmetic truncates to maxToken == warningToken (small Threshold*WarmUpPeriodSec)
+	// there is no room above the warning line; a division by zero here would make the slope +Inf and
+	// the allowed tokens 0*Inf = NaN, i.e. no limit at all.
+	slope := 0.0
+	if maxToken > warningToken {
+		slope = float64(rule.WarmUpColdFactor-1.0) / rule.Threshold / float64(maxToken-warningToken)
+	}
 
 	warmUpTrafficShapingCalculator := &WarmUpTrafficShapingCalculator{
 		owner:             owner,
